@@ -86,7 +86,7 @@ func (w *world) viol(key, what string) {
 
 func main() {
 	r := ev.Start("C29", "exploration")
-	r.SetRule("seeded histories (quick 28 x 14 calls, thorough 320 x 14) of AcmeValidate / AcmeInstruction / ReleaseTunnel by three clients over hostnames {valid custom (plain, padded with spaces, IDN), below the apex, the apex itself, below / equal to the ACME zone, two-label bare domains, upper- and mixed-case spellings of the refused classes and of the valid (possibly already bound) names, sent with a fresh valid proof over the spelling as sent and the right CNAME (case-insensitive resolver), public-suffix bare and apex-as-infix names (recorded only)} x CNAME answers {exactly the caller's target, another client's target, caller's target with an extra left label (suffix match), the managed target, resolver error, NXDOMAIN} x proofs {valid, none, wrong subject, expired, expiry far in the future, lower difficulty, unsolved counter, bad signature, signed by another key} x existing binding {none, same client, other client}. Distinct = (op, hostname class, cname answer, proof kind, binding relation, result); non-trivial = the proof is valid (the request gets past the proof check) or the hostname is bound")
+	r.SetRule("seeded histories (quick 28 x 18 calls, thorough 320 x 18) of AcmeValidate / AcmeInstruction / ReleaseTunnel by three clients over hostnames {valid custom (plain, padded with spaces, IDN), below the apex, the apex itself, below / equal to the ACME zone, two-label bare domains, upper- and mixed-case spellings of the refused classes and of the valid (possibly already bound) names, sent with a fresh valid proof over the spelling as sent and the right CNAME (case-insensitive resolver), public-suffix bare and apex-as-infix names (recorded only)} x CNAME answers {exactly the caller's target, another client's target, caller's target with an extra left label (suffix match), the managed target, resolver error, NXDOMAIN} x proofs {valid, none, wrong subject, expired, expiry far in the future, lower difficulty, unsolved counter, bad signature, signed by another key} x existing binding {none, same client, other client}. Distinct = (op, hostname class, cname answer, proof kind, binding relation, result); non-trivial = the proof is valid (the request gets past the proof check) or the hostname is bound")
 	r.Assume("a valid proof is acceptable for >= 9 s after its generation started; verdicts that need the proof to have been valid are only taken while it is younger than 4 s, otherwise the call is repeated with a new proof")
 	r.Assume("normalisation removes surrounding white space and maps IDN labels to punycode; the binding is stored under that form")
 	r.Assume("'bare domain' is judged only for two-label names; a public-suffix bare name (example.co.uk) and names that merely contain the apex as an infix are recorded, not judged")
@@ -94,7 +94,7 @@ func main() {
 	r.Assume("DESIGN: with a valid proof, an unbound valid hostname and exactly the right CNAME the validation must succeed (bound afterwards iff ...)")
 	rng := r.Rand("c29")
 	nWorlds := r.Pick(28, 320)
-	nOps := 14
+	nOps := 18
 	seeds := make([]int64, nWorlds)
 	for i := range seeds {
 		seeds[i] = rng.Int63()
